@@ -365,7 +365,8 @@ def parse_youtube_url(url, fix_common_mistakes=True):
             return None
 
         # NOTE: at the end of the user's url a trailing blank would be stripped
-        user = splitted_path[1].strip()
+        # NOTE: query arguments glued to the path with a "&" are no part of the name
+        user = splitted_path[1].split("&", 1)[0].strip()
 
         if not user:
             return None
@@ -383,7 +384,7 @@ def parse_youtube_url(url, fix_common_mistakes=True):
         if len(splitted_path) < 2:
             return None
 
-        name = splitted_path[1].lstrip("@")
+        name = splitted_path[1].lstrip("@").split("&", 1)[0]
 
         if not name or name in YOUTUBE_CHANNEL_NAME_BLACKLIST:
             return None
@@ -397,7 +398,7 @@ def parse_youtube_url(url, fix_common_mistakes=True):
             return None
 
         # NOTE: at the end of the channel's url a trailing blank would be stripped
-        cid = splitted_path[1].strip()
+        cid = splitted_path[1].split("&", 1)[0].strip()
 
         if not cid:
             return None
@@ -425,7 +426,7 @@ def parse_youtube_url(url, fix_common_mistakes=True):
         if path.count("/") == 1:
             # NOTE: a reserved path behind an "@" is no channel name either,
             # as under "/c/": its url would be the reserved page
-            name = path.lstrip("/").lstrip("@")
+            name = path.lstrip("/").lstrip("@").split("&", 1)[0]
 
             if not name or name in YOUTUBE_CHANNEL_NAME_BLACKLIST:
                 return
